@@ -19,3 +19,31 @@ def probe_k7_round_overflow():
 
 def k7_overflow(p):
     return 'OverflowError' in p.get('what', '') and 'too large' in p.get('what', '')
+
+
+def k8_pickle_identity(hit):
+    """K8 (C09/C17): under picklemap(serializer='pickle') two keys with EQUAL content differ in bytes
+    because pickle's memo records which argument objects are shared (e.g. two equal default tuples
+    merged by the compiler vs. one of them spelled out by the caller)."""
+    if not hit.get('keymap', '').startswith('pickle-'):
+        return False
+    import pickle
+    import re
+    m = re.findall(r"b'(?:[^'\\\\]|\\\\.)*'", hit.get('what', ''))
+    ks = hit.get('keys')
+    if ks and len(ks) == 2:
+        try:
+            return ks[0] != ks[1] and pickle.loads(ks[0]) == pickle.loads(ks[1])
+        except Exception:
+            return False
+    return False
+
+
+def probe_k8_pickle_identity():
+    import klepto
+    import klepto.keymaps as km
+
+    def f(a, k=(1,), w=(1,)):
+        return 0
+    g = klepto.inf_cache(keymap=km.picklemap(serializer='pickle'))(f)
+    return g.key(True) != g.key(True, w=tuple([1]))
